@@ -31,6 +31,7 @@ import (
 	httpv1 "github.com/semafind/semadb/httpapi/v1"
 	httpv2 "github.com/semafind/semadb/httpapi/v2"
 	"github.com/semafind/semadb/models"
+	"github.com/semafind/semadb/shard"
 	"github.com/vmihailenco/msgpack/v5"
 )
 
@@ -296,6 +297,46 @@ func (e *c18Env) docs(col models.Collection) (map[string]models.PointAsMap, erro
 		}
 	}
 	return out, nil
+}
+
+// oversized: some stored point of some collection is larger than the point size limit of the plan the collection was
+// created under (every shard asked directly for the raw stored data of the known ids)
+func (e *c18Env) oversized() bool {
+	for u := range c18Users {
+		cols, err := e.cnode.ListCollections(u)
+		if err != nil {
+			continue
+		}
+		for _, col := range cols {
+			// fixture points, plus the ids the generated requests give to points of collections they create themselves
+			ids := append([]uuid.UUID{}, e.known[col.UserId+"/"+col.Id]...)
+			for k := 0; k < 8; k++ {
+				ids = append(ids, c18Id(0x100+k))
+			}
+			if col.UserPlan.MaxPointSize <= 0 {
+				continue
+			}
+			for _, sid := range col.ShardIds {
+				over := false
+				e.cnode.VerifShardManager().DoWithShard(col, sid, func(s *shard.Shard) error {
+					res, err := s.SearchPoints(models.SearchRequest{Query: c17IdAny(ids), Select: []string{"*"}})
+					if err != nil {
+						return err
+					}
+					for _, r := range res {
+						if len(r.Data) > col.UserPlan.MaxPointSize {
+							over = true
+						}
+					}
+					return nil
+				})
+				if over {
+					return true
+				}
+			}
+		}
+	}
+	return false
 }
 
 func (e *c18Env) digest() string {
